@@ -8,6 +8,7 @@ fallbacks are kept).
 import ast
 import os
 
+from ..match import facts, Q
 from ..srcmodel import (attr_chain, call_name, unparse, norm_text, walk_no_nested,
                         Model, AnalysisError)
 from ..cfg import cfg_of
@@ -342,11 +343,12 @@ def r5_no_partial_objects(run):
     rets = cfg.by_kind("return")
     ok = True
     for r in rets:
-        gs = {(unparse(e), p) for e, p, _ in cfg.guards(r.id)}
+        gs = facts(cfg, r.id)
         if unparse(r.ast.value) not in ("None", "target"):
             ok = False
         if unparse(r.ast.value) == "target":
-            ok = ok and any("tree.tag ==" in g and p for g, p in gs)
+            ok = ok and any("tree.tag" in g and " == " in g and p
+                            for g, p in gs)
     run.check(ok and rets, "R5", fi.qual + "::root-tag",
               "an object is returned only when the root tag is the class's own",
               "create_class_from_element_tree returns an object for a foreign "
